@@ -98,7 +98,13 @@ fn banks_of(inv: &Inv, ev: &Ev, rng: &mut Rng) -> Banks {
     for w in &ev.suppressed {
         banks.push(suppressed_bank(inv, *w));
     }
-    banks.extend(event::pad_banks(inv, &ev.pads, *rng.pick(&[100usize, 1400, 65535])));
+    let cs = *rng.pick(&[100usize, 1400, 65535]);
+    if rng.bool() {
+        banks.extend(event::pad_banks(inv, &ev.pads, cs));
+    } else {
+        // per-packet header metadata and chunk sequence numbers differ from packet to packet: none of it may matter
+        banks.extend(event::pad_banks_varied(inv, &ev.pads, cs, rng));
+    }
     banks.push(event::trg_bank(ev.ts));
     // foreign banks that must be recognised and ignored
     if rng.bool() {
